@@ -35,6 +35,6 @@ PROFILE = machine.Profile(
     [(8, 'put_allocations'), (7, 'post_allocations'), (4, 'reshaper'),
      (1, 'delete_allocations'), (1, 'put_allocations_clear')],
     oracles=[oracles.c01_oracle], nontrivial=nontrivial, steps=40,
-    boundaries=(8, 12, 13, 28, 30, 34, 38), defect_rate=2)
+    boundaries=(8, 12, 13, 28, 30, 34, 38), defect_rate=2, rich_start=5)
 
 C.standard_module(globals(), 'C01', PROFILE, 25, 400)
